@@ -106,12 +106,13 @@ class RandomProxy(types.SimpleNamespace):
         return r
 
 
-def one_config(rep: Report, cx: list, rng, seed: int, kind: str, reorder: bool, max_points: int) -> None:
+def one_config(rep: Report, cx: list, rng, seed: int, kind: str, reorder: bool, max_points: int,
+               n: int | None = None) -> None:
     from harness import autosave_util as U
     from emu_mps.mps_backend import MPSBackend
     import emu_mps.mps_backend_impl as impl_mod
 
-    sysd = U.gen_system(rng, kind)
+    sysd = U.gen_system(rng, kind, n=n)
     ctx = dict(system=sysd, reorder=reorder, rng_seed=seed)
     rep.hist("config", f"{kind}/n={sysd['n']}/steps={sysd['steps']}/reorder={'on' if reorder else 'off'}")
     calls = {"permute": 0}
@@ -330,6 +331,11 @@ def check(rep: Report, tier: str, seed: int) -> None:
             t0 = _time.time()
             one_config(rep, cx, rng, seed + 1000 * r, kind, reorder, max_points=5 if tier == "quick" else 40)
             rep.extra.setdefault("seconds_per_config", []).append(round(_time.time() - t0, 1))
+    # the 1-or-2-qubit corner case of `progress()` (one pair, no sweep) is its own code path: always exercised
+    # (a sub-stream of its own, so the cases above keep their seeds)
+    rng2 = seeded(seed * 4099 + 2626)
+    for kind2 in (("tdvp", "dmrg", "noisy") if tier != "quick" else ("tdvp", "noisy")):
+        one_config(rep, cx, rng2, seed + 77, kind2, False, max_points=3 if tier == "quick" else 12, n=2)
     fresh_stream_probe(rep, rng, seed, n_fresh=1 if tier == "quick" else 2)
     settle(rep, cx)
     if rep.broken and not rep.unknown_failing():
